@@ -77,6 +77,12 @@ type eventOwner struct {
 	notify    bool
 	consumers int32
 
+	// guards the buffer of the last messages: it is written by the publishers and
+	// walked by every new subscriber. A publication takes it for "store the message
+	// and look up the current subscribers", a subscription for "become a subscriber
+	// and copy the buffer", so a new subscriber gets a message either with the
+	// buffer or as a regular delivery - never both, never none.
+	sync.Mutex
 	last lib.QueueMPSC
 }
 
